@@ -707,3 +707,93 @@ func VerifScripts(p VerifParseArgs, dataDir string, subDir string) (res map[stri
 	}
 	return res, ""
 }
+
+// VerifReport is one audit report handed to the collector.
+type VerifReport struct {
+	Auditor string
+	// Code is the result: 0 ok, 1 evaluation error, 2 failure, 3 info.
+	Code int
+}
+
+// VerifCollectOut is what the collector made of a stream of reports.
+type VerifCollectOut struct {
+	// Interp lists, in audienceNames order, name / foulOnBad / foulOnGood
+	// (0 ignore, 1 foul upon non-zero, 2 foul upon zero).
+	Interp [][3]interface{}
+	// Consumed is the number of reports the collector took before it returned.
+	Consumed int
+	Err      string
+	// IsAuditViolation tells whether the returned error is errAuditViolation.
+	IsAuditViolation bool
+	Tallies          map[string][2]int
+	HasData          map[string]bool
+	NumAuditErrors   int
+	ConfigErr        string
+	Panicked         bool
+	Panic            string
+}
+
+// VerifCollectReports parses the configuration (audience and
+// interpretation clauses) and runs the real collector loop over the
+// given reports, with or without -S.
+func VerifCollectReports(p VerifParseArgs, reports []VerifReport, earlyExit bool) (res VerifCollectOut) {
+	defer func() {
+		if r := recover(); r != nil {
+			res.Panicked = true
+			res.Panic = fmt.Sprintf("%v", r)
+		}
+	}()
+	ctx := context.Background()
+	cfg, err := verifLoad(p)
+	if err != nil {
+		res.ConfigErr = fmt.Sprintf("%v", err)
+		return res
+	}
+	for _, n := range cfg.audienceNames {
+		a := cfg.audience[n]
+		res.Interp = append(res.Interp, [3]interface{}{n, int(a.auditor.foulOnBad), int(a.auditor.foulOnGood)})
+	}
+	cfg.earlyExit = earlyExit
+	scratch, err := ioutil.TempDir("", "verif-col")
+	if err != nil {
+		res.ConfigErr = err.Error()
+		return res
+	}
+	defer os.RemoveAll(scratch)
+	cfg.dataDir = scratch
+	stopper := stop.NewStopper()
+	defer stopper.Stop(ctx)
+	base := &verifReporter{ep: time.Now()}
+	colCh := make(chan collectorEvent, len(reports)+1)
+	col := collector{
+		r:       base,
+		cfg:     cfg,
+		stopper: stopper,
+		st:      makeCollectorState(cfg),
+		logger:  log.NewSecondaryLogger(ctx, nil, "collector", true, false),
+		eventCh: colCh,
+	}
+	for i, r := range reports {
+		colCh <- &auditionReport{ts: float64(i), auditor: r.Auditor, result: result(r.Code), output: "x"}
+	}
+	colCh <- terminate{}
+	cerr := col.collect(ctx)
+	left := len(colCh)
+	// What was not consumed: the remaining reports and the terminate marker.
+	res.Consumed = len(reports) + 1 - left
+	if res.Consumed > len(reports) {
+		res.Consumed = len(reports)
+	}
+	if cerr != nil {
+		res.Err = fmt.Sprintf("%v", cerr)
+		res.IsAuditViolation = isError(cerr, errAuditViolation)
+	}
+	res.Tallies = map[string][2]int{}
+	res.HasData = map[string]bool{}
+	for name, a := range cfg.audience {
+		res.Tallies[name] = [2]int{col.st.goodCounts[name], col.st.badCounts[name]}
+		res.HasData[name] = a.auditor.hasData
+	}
+	res.NumAuditErrors = len(col.st.errors)
+	return res
+}
